@@ -569,6 +569,10 @@ impl<'a> Gen<'a> {
                 let digits: String = n[3..].chars().filter(|c| c.is_ascii_digit()).collect();
                 let max: usize = digits.parse().unwrap();
                 let prec = if n.contains('F') { 2 } else { self.ccy.as_deref().map(iso_decimals).unwrap_or(2) };
+                // zero in its spellings, where the format does not ask for a positive amount (rates, balances, sums)
+                if !hit && !n[3..].contains('P') && self.rng.chance(1, 12) {
+                    return self.rng.pick(&["0", "0,", "0,0", "0,00", "000", "00,0"]).to_string();
+                }
                 let dec = if hit && self.rng.chance(1, 2) { prec + 1 } else { self.rng.range(0, prec) };
                 let int_max = max.saturating_sub(if dec > 0 { dec + 1 } else { 1 }).max(1);
                 let ip = if hit && dec <= prec { max + 1 } else { self.pick_len(1, int_max.min(12)) };
@@ -587,6 +591,38 @@ impl<'a> Gen<'a> {
             _ => panic!("unknown named component {name}"),
         }
     }
+}
+
+/// Does the text carry an amount outside the region where an f64 holds a decimal exactly: integer digits plus the
+/// decimals to print (the currency's, taken from the three capital letters in front of the amount; 2 without one; or the
+/// written ones if more) above 15?  Such amounts come back changed in the last digits (finding f64-precision).
+pub fn beyond_f64(text: &str) -> bool {
+    let cs: Vec<char> = text.chars().collect();
+    let mut i = 0;
+    while i < cs.len() {
+        if cs[i].is_ascii_digit() {
+            let st = i;
+            while i < cs.len() && cs[i].is_ascii_digit() { i += 1; }
+            let int_d = i - st;
+            let mut dec = 0;
+            if i < cs.len() && (cs[i] == ',' || cs[i] == '.') {
+                let f = i + 1;
+                i += 1;
+                while i < cs.len() && cs[i].is_ascii_digit() { i += 1; }
+                dec = i - f;
+            }
+            let ccy: String = if st >= 3 && cs[st - 3..st].iter().all(|c| c.is_ascii_uppercase()) { cs[st - 3..st].iter().collect() } else { String::new() };
+            // a D / C indicator may stand between currency and amount (34F)
+            let ccy = if ccy.is_empty() && st >= 4 && cs[st - 4..st - 1].iter().all(|c| c.is_ascii_uppercase()) { cs[st - 4..st - 1].iter().collect() } else { ccy };
+            let prec = if ccy.is_empty() { 2 } else { iso_decimals(&ccy).max(2) };
+            if int_d + dec.max(prec) > 15 && int_d >= 9 {
+                return true;
+            }
+        } else {
+            i += 1;
+        }
+    }
+    false
 }
 
 /// number of length-bearing nodes (for the `violate` index)
